@@ -60,6 +60,15 @@ CHECKS["C08"] = dict(cat="exploration", engine="cache",
    text="Generated single-table contents (0-12 rows with heavy value sharing) and lists of 1-4 well-typed conditions over all column kinds (empty sets/maps, absent optionals, repeated columns, _uuid conditions, unsatisfiable lists) are evaluated by RowsByCondition under none/schema/multi-column/client/map-key/overlapping index configurations and by the reference; any error on a well-typed condition, any disagreement with the reference or between configurations is a violation. WhereAll/WhereAny List() are compared with conjunction/disjunction, and the Delete() operations they generate are executed on an in-memory database holding the same rows: the rows removed must be the rows listed. Held = on the cases generated.",
    note="Select through a transaction is covered by C03; Where(model) precedence by C05.", ref="4/C08")
 
+CHECKS["C13"] = dict(cat="exploration", engine="cache",
+   technique="read-mutate-re-read differential monitor over every cache read and write path + Clone/Equal law checking (pointer identity, mutate-and-compare, one-field perturbations)",
+   text="For 15 read paths (Row, Rows, RowByModel by uuid and by index, RowsByModels, RowsByCondition with and without index, client Get, List, Where(model).List, WhereAll.List, WhereCache.List) and for the models given to event handlers, every reachable scalar, slice element, spare slice capacity, map entry and pointer target of the returned models is mutated and the canonical dump of the cache must not change; symmetrically for models handed to Create/Update/Populate2. RowsShallow serves as self-check of the detector. Clone/CloneInto/Equal laws are checked on run-time structs over the whole type space (JSON path), a hand-written struct and the generated serverdb.Database. Known finding: maps keyed by real/boolean cannot be cloned.",
+   note="Lookups without uuid are resolved through an index so that the index-resolved read path is exercised.", ref="4/C13")
+CHECKS["C14"] = dict(cat="exploration", engine="cache",
+   technique="offline checker over recorded event logs (replay = cache, per-row alternation, old = previous state, handlers agree, no event for a failed apply) + Go race detector on the dispatcher/applier pair",
+   text="2-3 handlers record every event while TableCache.Run dispatches from its own goroutine in a race-instrumented child; notification histories (update2 via Populate2, RFC update via Populate, multi-row and hand-over batches) include injected notifications that must fail to apply (insert of a cached uuid, modify/delete of unknown rows). Quiescence is reached through a sentinel row event; then the log of each handler is replayed onto empty tables and compared with Rows(), per-row legality and old-equals-previous-state are checked, and all handlers must hold identical logs. Race reports with a libovsdb frame are violations.",
+   note="Outstanding events stay below the 65536-entry buffer (counted). Random handler delays vary the interleaving; schedules are sampled.", ref="4/C14")
+
 NOT_YET = "check not built yet (work in progress in this round); no claim is made"
 
 def main():
